@@ -61,6 +61,48 @@ def run_demo(wt, demo):
     return r.returncode, (r.stdout + r.stderr)[-600:]
 
 
+def margin(sid, tier, seeds):
+    """How robust is the detection?  Re-run the owning quick check under other VERIF_SEED values
+    (patch applied to a scratch worktree of HEAD or of the base commit) and record caught/missed per seed."""
+    d = os.path.join(SEEDED, sid)
+    meta = json.load(open(os.path.join(d, "meta.json")))
+    if meta.get("detection", {}).get(meta["property"], {}).get("status") != "caught":
+        return
+    wt = "/tmp/dsim_margin_wt"
+    sh(f"git -C /repo worktree remove --force {wt}")
+    shutil.rmtree(wt, ignore_errors=True)
+    base = "HEAD" if meta.get("evaluated_on") == "HEAD" else meta.get("base_commit", "a793921")
+    sh(f"git -C /repo worktree add --detach {wt} {base}")
+    patch = os.path.join(d, "patch_head.diff") if "patch_used" in meta else os.path.join(d, "patch.diff")
+    try:
+        if sh(f"git -C {wt} apply {patch}").returncode:
+            print(sid, "patch does not apply")
+            return
+        out = {}
+        want = set(meta["detection"][meta["property"]]["signatures"])
+        ignore = set(meta["detection"][meta["property"]].get("base_tree_signatures_ignored", []))
+        for seed in seeds:
+            env = dict(os.environ, VERIF_REPO=wt, VERIF_SEED=str(seed), VERIF_EVIDENCE_DIR="/tmp/dsim_margin_out",
+                       VERIF_REPLAY_DIR="/tmp/dsim_margin_out")
+            c = subprocess.run([os.path.join(VERIF, "check"), "run", meta["property"], "--tier", tier],
+                               capture_output=True, text=True, env=env, cwd=VERIF)
+            try:
+                ev = json.load(open(f"/tmp/dsim_margin_out/{meta['property']}.json"))
+                sigs = {v["signature"]: v["count"] for v in ev["coverage"]["violation_signatures"]}
+            except Exception:
+                sigs = {}
+            sigs = {k: v for k, v in sigs.items() if k not in ignore}
+            out[str(seed)] = {"exit": c.returncode, "violating_runs": sum(sigs.values()), "signatures": len(sigs)}
+        meta["detection_by_seed"] = out
+        with open(os.path.join(d, "meta.json"), "w") as f:
+            json.dump(meta, f, indent=1)
+        print(sid, {k: (v["exit"], v["violating_runs"]) for k, v in out.items()}, flush=True)
+    finally:
+        sh(f"git -C /repo worktree remove --force {wt}")
+        shutil.rmtree(wt, ignore_errors=True)
+        shutil.rmtree("/tmp/dsim_margin_out", ignore_errors=True)
+
+
 def evaluate(sid, tier, runs, all_props):
     d = os.path.join(SEEDED, sid)
     meta = json.load(open(os.path.join(d, "meta.json")))
@@ -173,9 +215,17 @@ def main():
     e.add_argument("--tier", default="quick")
     e.add_argument("--runs", type=int)
     e.add_argument("--all-props", action="store_true")
+    mg = sub.add_parser("margin")
+    mg.add_argument("ids", nargs="*")
+    mg.add_argument("--seeds", default="1,2,3")
+    mg.add_argument("--tier", default="quick")
     args = ap.parse_args()
     if args.cmd == "import":
         return cmd_import(args)
+    if args.cmd == "margin":
+        for sid in (args.ids or sorted(os.listdir(SEEDED))):
+            margin(sid, args.tier, [int(x) for x in args.seeds.split(",")])
+        return
     ids = args.ids or sorted(os.listdir(SEEDED))
     for sid in ids:
         evaluate(sid, args.tier, args.runs, args.all_props)
